@@ -1,7 +1,10 @@
 // Harness for C13: drives ocifilter.Sub over a recording backend (ociregistry.Funcs with
 // every field set, scripted or in front of a real ocimem registry), yield by yield over a
 // raw iterator, over a Lister-contract backend holding arbitrary names, and differentially
-// against a second in-memory registry addressed with prefix/name directly.
+// against a second in-memory registry addressed with prefix/name directly. A view is built
+// either in one step, Sub(r, "a/b/c"), or as a view of a view, Sub(Sub(r, "a"), "b/c");
+// a sequence returned by a listing method may be iterated more than once, at once or later
+// in the history.
 package main
 
 import (
@@ -36,17 +39,28 @@ type backendCfg struct {
 }
 
 type input struct {
-	Kind    string       `json:"kind"` // hist | seq | list | twin | promoted | join
-	Prefix  S            `json:"prefix"`
-	Scope   *filt.Scope  `json:"scope,omitempty"` // nil: no scope in the context
-	Hist    []filt.Op    `json:"hist,omitempty"`
-	Backend backendCfg   `json:"backend"`
-	Events  []filt.Yield `json:"events,omitempty"`
-	Stop    *int         `json:"stop,omitempty"`
-	Start   S            `json:"start,omitempty"`
-	Names   []S          `json:"names,omitempty"`
-	Method  string       `json:"method,omitempty"`
-	Name    S            `json:"name,omitempty"`
+	Kind   string `json:"kind"` // hist | seq | list | twin | promoted | join
+	Prefix S      `json:"prefix"`
+	// Stack, when not empty, says how the view is built: Sub applied once per element,
+	// innermost first; Prefix is then the elements joined with "/" (see view).
+	Stack []S `json:"stack,omitempty"`
+	// Again runs parallel to Hist (hist and twin cases): Again[i] = j+1 > 0 says that
+	// operation i, a copy of the listing operation j < i, is performed by iterating once
+	// more the sequence value that operation j returned instead of calling the method.
+	Again []int `json:"again,omitempty"`
+	// PrevStops (seq cases) / Pass (list cases): the iterations made over the same sequence
+	// value before the one that is observed; for seq, where each of them stopped (-1: never).
+	PrevStops []int        `json:"prev_stops,omitempty"`
+	Pass      int          `json:"pass,omitempty"`
+	Scope     *filt.Scope  `json:"scope,omitempty"` // nil: no scope in the context
+	Hist      []filt.Op    `json:"hist,omitempty"`
+	Backend   backendCfg   `json:"backend"`
+	Events    []filt.Yield `json:"events,omitempty"`
+	Stop      *int         `json:"stop,omitempty"`
+	Start     S            `json:"start,omitempty"`
+	Names     []S          `json:"names,omitempty"`
+	Method    string       `json:"method,omitempty"`
+	Name      S            `json:"name,omitempty"`
 }
 
 func ctxFor(sc *filt.Scope) (context.Context, filt.Scope) {
@@ -56,6 +70,133 @@ func ctxFor(sc *filt.Scope) (context.Context, filt.Scope) {
 	}
 	s := sc.Go()
 	return ociauth.ContextWithScope(ctx, s), filt.ScopeOf(s)
+}
+
+// joinStack is the prefix that a view of a view ... of a view stands for.
+func joinStack(stack []S) S {
+	var parts []string
+	for _, p := range stack {
+		if p != "" { // Sub(r, "") is r
+			parts = append(parts, string(p))
+		}
+	}
+	return S(strings.Join(parts, "/"))
+}
+
+// view builds the sub-registry view of the case over r.
+func view(r ociregistry.Interface, in input) ociregistry.Interface {
+	if len(in.Stack) == 0 {
+		return ocifilter.Sub(r, string(in.Prefix))
+	}
+	if joinStack(in.Stack) != in.Prefix {
+		panic(fmt.Sprintf("harness: stack %q does not spell prefix %q", in.Stack, in.Prefix))
+	}
+	for _, p := range in.Stack {
+		r = ocifilter.Sub(r, string(p))
+	}
+	return r
+}
+
+// lazy gives the listing methods of a registry the behaviour of a remote registry's:
+// calling the method does nothing yet, every iteration of the returned sequence is a fresh
+// call of the wrapped method. Behind it, one iteration is one recorded backend call, whether
+// the sequence value is new or is being iterated again.
+type lazy struct{ ociregistry.Interface }
+
+func (l lazy) Repositories(ctx context.Context, startAfter string) ociregistry.Seq[string] {
+	return func(yield func(string, error) bool) { l.Interface.Repositories(ctx, startAfter)(yield) }
+}
+
+func (l lazy) Tags(ctx context.Context, repo, startAfter string) ociregistry.Seq[string] {
+	return func(yield func(string, error) bool) { l.Interface.Tags(ctx, repo, startAfter)(yield) }
+}
+
+func (l lazy) Referrers(ctx context.Context, repo string, digest ociregistry.Digest, artifactType string) ociregistry.Seq[ociregistry.Descriptor] {
+	return func(yield func(ociregistry.Descriptor, error) bool) {
+		l.Interface.Referrers(ctx, repo, digest, artifactType)(yield)
+	}
+}
+
+// seqs keeps the sequence values the listing operations of a history returned, by the
+// index of the operation.
+type seqs struct {
+	str  map[int]ociregistry.Seq[string]
+	desc map[int]ociregistry.Seq[ociregistry.Descriptor]
+}
+
+func newSeqs() *seqs {
+	return &seqs{map[int]ociregistry.Seq[string]{}, map[int]ociregistry.Seq[ociregistry.Descriptor]{}}
+}
+
+func isListing(m string) bool { return m == "Repositories" || m == "Tags" || m == "Referrers" }
+
+func drainStrings(seq ociregistry.Seq[string]) filt.Res {
+	r := filt.Res{Kind: "list", List: []S{}}
+	seq(func(x string, err error) bool {
+		if err != nil {
+			r.SeqErr = filt.ErrOf(err)
+			return false
+		}
+		r.List = append(r.List, S(x))
+		return true
+	})
+	return r
+}
+
+func drainDescs(seq ociregistry.Seq[ociregistry.Descriptor]) filt.Res {
+	r := filt.Res{Kind: "descs", Descs: []filt.Desc{}}
+	seq(func(x ociregistry.Descriptor, err error) bool {
+		if err != nil {
+			r.SeqErr = filt.ErrOf(err)
+			return false
+		}
+		r.Descs = append(r.Descs, filt.DescOf(x))
+		return true
+	})
+	return r
+}
+
+// perform is filt.Invoke, except that the sequence a listing method returns is kept under
+// the operation's index i, and that with again = j+1 > 0 no method is called: the sequence
+// kept under j is iterated once more (when operation j did not get as far as returning a
+// sequence, the method is called as usual).
+func perform(ctx context.Context, r ociregistry.Interface, op filt.Op, ws *filt.Writers, i, again int, kept *seqs) (res filt.Res) {
+	if !isListing(op.M) {
+		return filt.Invoke(ctx, r, op, ws)
+	}
+	panicked, pv := hx.Recover(func() {
+		if op.M == "Referrers" {
+			seq, ok := kept.desc[again-1]
+			if !ok {
+				seq = r.Referrers(ctx, string(op.Repo), ociregistry.Digest(op.Digest), string(op.Art))
+			}
+			kept.desc[i] = seq
+			res = drainDescs(seq)
+			return
+		}
+		seq, ok := kept.str[again-1]
+		if !ok {
+			if op.M == "Repositories" {
+				seq = r.Repositories(ctx, string(op.Start))
+			} else {
+				seq = r.Tags(ctx, string(op.Repo), string(op.Start))
+			}
+		}
+		kept.str[i] = seq
+		res = drainStrings(seq)
+	})
+	if panicked {
+		return filt.Res{Kind: "panic", Panic: pv}
+	}
+	return res
+}
+
+// againOf reports Again[i] when it names an earlier operation that is the same call.
+func (in input) againOf(i int) int {
+	if i < len(in.Again) && in.Again[i] > 0 && in.Again[i] <= i && reflect.DeepEqual(in.Hist[in.Again[i]-1], in.Hist[i]) {
+		return in.Again[i]
+	}
+	return 0
 }
 
 var errCodes = []string{"BLOB_UNKNOWN", "MANIFEST_UNKNOWN", "NAME_UNKNOWN", "DENIED", "UNAUTHORIZED", "", "TOOMANYREQUESTS", "MY_CODE"}
@@ -180,13 +321,14 @@ func runHist(in input) (string, observed) {
 	} else {
 		b.Answer = in.Backend.answer(b)
 	}
-	w := ocifilter.Sub(b.Interface(), string(in.Prefix))
+	w := view(lazy{b.Interface()}, in)
 	ws := &filt.Writers{Index: b.WriterIndex}
+	kept := newSeqs()
 	var obs observed
 	var terms []string
-	for _, op := range in.Hist {
+	for i, op := range in.Hist {
 		mark := b.Mark()
-		res := filt.Invoke(ctx, w, op, ws)
+		res := perform(ctx, w, op, ws, i, in.againOf(i), kept)
 		calls := b.Since(mark)
 		obs.Ops = append(obs.Ops, obsOp{Res: res, Calls: calls})
 		terms = append(terms, "("+res.Coq()+", "+callsCoq(calls)+")")
@@ -202,11 +344,21 @@ func runSeq(in input) (string, observed) {
 		b.RawRepos = []filt.Yield{}
 	}
 	b.Answer = in.Backend.answer(b)
-	w := ocifilter.Sub(b.Interface(), string(in.Prefix))
+	w := view(lazy{b.Interface()}, in)
 	var obs observed
-	obs.Yields = []filt.Yield{}
+	var mark, delivered0 int
 	panicked, pv := hx.Recover(func() {
-		w.Repositories(ctx, string(in.Start))(func(item string, err error) bool {
+		seq := w.Repositories(ctx, string(in.Start))
+		// the earlier iterations over the same sequence value: not part of the observation
+		for _, stop := range in.PrevStops {
+			n := 0
+			hx.Recover(func() {
+				seq(func(string, error) bool { n++; return n-1 != stop })
+			})
+		}
+		mark, delivered0 = b.Mark(), b.Delivered
+		obs.Yields = []filt.Yield{}
+		seq(func(item string, err error) bool {
 			obs.Yields = append(obs.Yields, filt.Yield{Item: S(item), Err: filt.ErrOf(err)})
 			return in.Stop == nil || len(obs.Yields)-1 != *in.Stop
 		})
@@ -214,11 +366,12 @@ func runSeq(in input) (string, observed) {
 	if panicked {
 		obs.Yields = append(obs.Yields, filt.Yield{Item: "PANIC", Err: &filt.Err{Tag: S(pv)}})
 	}
-	obs.Delivered = b.Delivered
-	obs.BackendCalls = len(b.Calls)
+	calls := b.Since(mark)
+	obs.Delivered = b.Delivered - delivered0
+	obs.BackendCalls = len(calls)
 	bsc, bstart := filt.Scope{Items: []filt.RS{{Type: "NO-BACKEND-CALL"}}}, S("NO-BACKEND-CALL")
-	if len(b.Calls) == 1 {
-		bsc, bstart = b.Calls[0].Scope, b.Calls[0].Op.Start
+	if len(calls) == 1 {
+		bsc, bstart = calls[0].Scope, calls[0].Op.Start
 	}
 	obs.BackendScope, obs.BackendStart = &bsc, bstart
 	stop := "None"
@@ -258,8 +411,14 @@ func runList(in input) (string, observed) {
 		}
 		return filt.Res{Kind: "list", List: l}
 	}
-	w := ocifilter.Sub(b.Interface(), string(in.Prefix))
-	res := filt.Invoke(ctx, w, filt.Op{M: "Repositories", Start: in.Start}, &filt.Writers{})
+	w := view(lazy{b.Interface()}, in)
+	// one sequence value, iterated in.Pass times before the iteration that is observed
+	op := filt.Op{M: "Repositories", Start: in.Start}
+	kept := newSeqs()
+	res := perform(ctx, w, op, nil, 0, 0, kept)
+	for i := 1; i <= in.Pass; i++ {
+		res = perform(ctx, w, op, nil, i, i, kept)
+	}
 	obs := observed{Res: &res, BackendCalls: len(b.Calls)}
 	return fmt.Sprintf("CList %s %s %s %s", filt.B(in.Prefix), filt.Bs(names), filt.B(in.Start), res.Coq()), obs
 }
@@ -281,13 +440,19 @@ func prefixed(prefix string, op filt.Op) filt.Op {
 
 func runTwin(in input) (string, observed) {
 	ctx, _ := ctxFor(in.Scope)
-	w := ocifilter.Sub(newMem(in.Backend.Mem), string(in.Prefix))
+	var base ociregistry.Interface = newMem(in.Backend.Mem)
+	if len(in.Again) > 0 {
+		// a sequence iterated again later in the history lists the registry as it is then
+		base = lazy{base}
+	}
+	w := view(base, in)
 	twin := newMem(in.Backend.Mem)
 	wsA, wsB := &filt.Writers{}, &filt.Writers{}
+	kept := newSeqs()
 	var obs observed
 	var terms []string
 	var hist []filt.Op
-	for _, op := range in.Hist {
+	for i, op := range in.Hist {
 		opB := prefixed(string(in.Prefix), op)
 		if op.IsWriterOp() && op.W < 0 {
 			// the writer obtained last, when both sides have one
@@ -296,8 +461,8 @@ func runTwin(in input) (string, observed) {
 			}
 			op.W, opB.W = len(wsA.W)-1, len(wsB.W)-1
 		}
-		rs := filt.Invoke(ctx, w, op, wsA)
-		rd := filt.Invoke(ctx, twin, opB, wsB)
+		rs := perform(ctx, w, op, wsA, i, in.againOf(i), kept)
+		rd := filt.Invoke(ctx, twin, opB, wsB) // always a call of the method
 		hist = append(hist, op)
 		obs.Ops = append(obs.Ops, obsOp{Res: rs, Direct: &rd})
 		terms = append(terms, "("+rs.Coq()+", "+rd.Coq()+")")
@@ -310,7 +475,7 @@ func runTwin(in input) (string, observed) {
 func runPromoted(in input) (string, observed) {
 	b := &filt.Backend{}
 	b.Answer = in.Backend.answer(b)
-	w := ocifilter.Sub(b.Interface(), string(in.Prefix))
+	w := view(b.Interface(), in)
 	var obs observed
 	fld := reflect.ValueOf(w).Elem().FieldByName("Funcs")
 	res := filt.Res{Kind: "err", Err: &filt.Err{Tag: "no embedded Funcs field"}}
@@ -484,8 +649,15 @@ func main() {
 				outcome = "panic"
 			}
 		}
+		class := in.Kind + "/" + m + "/" + outcome
+		if len(in.Stack) > 0 {
+			class += "/view-of-view"
+		}
+		if len(in.Again) > 0 || len(in.PrevStops) > 0 || in.Pass > 0 {
+			class += "/iterated-again"
+		}
 		if out.Add(hx.Case{Coq: coq, Desc: map[string]any{"input": in, "observed": obs, "origin": origin},
-			Tags: map[string]any{"class": in.Kind + "/" + m + "/" + outcome, "method": m, "kind": in.Kind}}) {
+			Tags: map[string]any{"class": class, "method": m, "kind": in.Kind}}) {
 			out.Count("kind:" + in.Kind)
 			out.Count("method:" + m)
 			out.Count("origin:" + origin)
@@ -502,6 +674,16 @@ func main() {
 			}
 			if in.Kind == "join" {
 				out.Count("name:" + nameClass(string(in.Name)))
+			}
+			if in.Kind != "join" && in.Kind != "promoted" {
+				out.Count(fmt.Sprintf("view:sub-applied-%d-times", max(len(in.Stack), 1)))
+				again := len(in.PrevStops) + in.Pass
+				for i := range in.Hist {
+					if in.againOf(i) > 0 {
+						again++
+					}
+				}
+				out.Count(fmt.Sprintf("iterated-again:%d", min(again, 3)))
 			}
 			if in.Kind == "list" || in.Kind == "seq" || (len(in.Hist) > 0 && in.Hist[0].M == "Repositories") {
 				st := in.Start
@@ -593,6 +775,63 @@ func main() {
 		return ops
 	}
 
+	// the ways the views of the stack enumeration are built
+	stacks := [][]S{{"foo", "bar"}, {"a", "b", "c"}, {"a", "b/c"}, {"a/b", "c"}, {"a", "a"}, {"foo", "a"}, {"a", "foo"},
+		{"foo/bar", "foo"}, {"", "a", "b"}, {"a", "", "b"}, {"Foo", "foo"}}
+	stackNames := []string{"b", "", "../other", "b/../c", "/b", "foo", "a/b", "\xff\xfe"}
+	// splits is every way of building the view for prefix p from two or more applications of Sub
+	var splits func(p string) [][]S
+	splits = func(p string) [][]S {
+		var out [][]S
+		for i := 0; i < len(p); i++ {
+			if p[i] != '/' {
+				continue
+			}
+			head, tail := S(p[:i]), p[i+1:]
+			out = append(out, []S{head, S(tail)})
+			for _, rest := range splits(tail) {
+				out = append(out, append([]S{head}, rest...))
+			}
+		}
+		return out
+	}
+	// randStack: nil (one application of Sub) or one of the splits
+	randStack := func(p string) []S {
+		sp := splits(p)
+		if len(sp) == 0 || rnd.Intn(2) == 0 {
+			return nil
+		}
+		return sp[rnd.Intn(len(sp))]
+	}
+	// withAgain adds to a history, for some of its listing operations, a later operation
+	// that iterates the returned sequence once more
+	withAgain := func(h []filt.Op) ([]filt.Op, []int) {
+		again := make([]int, len(h))
+		any := false
+		for j := 0; j < len(h) && len(h) < 12; j++ {
+			if again[j] > 0 || !isListing(h[j].M) || rnd.Intn(2) == 0 {
+				continue
+			}
+			// at once, or after the operations that follow
+			at := j + 1
+			if rnd.Intn(2) == 0 {
+				at += rnd.Intn(len(h) - j)
+			}
+			h = append(h[:at], append([]filt.Op{h[j]}, h[at:]...)...)
+			again = append(again[:at], append([]int{j + 1}, again[at:]...)...)
+			for i := at + 1; i < len(again); i++ {
+				if again[i] > at {
+					again[i]++
+				}
+			}
+			any = true
+		}
+		if !any {
+			return h, nil
+		}
+		return h, again
+	}
+
 	// ---- complete enumeration: prefix x name x method, scopes and backend answers in rotation ----
 	k := 0
 	for _, p := range prefixes {
@@ -634,6 +873,48 @@ func main() {
 			}
 		}
 	}
+	// ---- a view of a view: Sub applied once per element of the stack, innermost first. It
+	// stands for the joined prefix whatever the elements are (equal, nested three deep, with
+	// several path elements each, an empty one anywhere). Every method, the names that tell
+	// prefixes and orders apart, every scope shape, listings from a start point. ----
+	for _, st := range stacks {
+		p := string(joinStack(st))
+		for ni, n := range stackNames {
+			n2 := stackNames[(ni+3)%len(stackNames)]
+			for _, m := range filt.Methods {
+				k++
+				bc := backendCfg{Fail: k%5 == 0, List: []S{"t1", "t2"}}
+				if m == "Repositories" {
+					bc.List = listingFor(p)
+				}
+				add(input{Kind: "hist", Prefix: S(p), Stack: st, Scope: scopesFor(n, n2, k), Hist: []filt.Op{sampleOp(m, n, n2, k)}, Backend: bc}, "enum-stack")
+			}
+		}
+		for sk := 0; sk < 8; sk++ {
+			add(input{Kind: "hist", Prefix: S(p), Stack: st, Scope: scopesFor("b/c", "../other", sk),
+				Hist:    []filt.Op{sampleOp("GetTag", "b/c", "", sk), sampleOp("MountBlob", "b/c", "d", sk), {M: "Repositories", Start: "one"}},
+				Backend: backendCfg{List: listingFor(p)}}, "enum-stack")
+		}
+	}
+	// ---- a sequence value iterated more than once: every iteration is the listing again
+	// (the start point, the name and the scope mean what they meant the first time) ----
+	for _, p := range prefixes {
+		for ni, n := range names {
+			n2 := names[(ni+5)%len(names)]
+			for _, m := range []string{"Repositories", "Tags", "Referrers"} {
+				k++
+				op := sampleOp(m, n, "", 0)
+				bc := backendCfg{Fail: k%7 == 0, List: []S{"t1", "t2"}}
+				if m == "Repositories" {
+					bc.List = listingFor(p)
+				}
+				if k%3 == 0 {
+					bc.ListErr = seqErr
+				}
+				add(input{Kind: "hist", Prefix: S(p), Scope: scopesFor(n, n2, k), Hist: []filt.Op{op, op, op}, Again: []int{0, 1, 1}, Backend: bc}, "enum-again")
+			}
+		}
+	}
 	// promoted methods of the embedded Funcs
 	for _, m := range filt.Methods {
 		add(input{Kind: "promoted", Prefix: "foo", Method: m}, "promoted")
@@ -645,6 +926,11 @@ func main() {
 		starts := []S{"", "b", "c", "c/d", "a", "zz", "B", "/", S(p + "/b"), S(p), "c/", "bz", "..", "."}
 		for _, st := range starts {
 			add(input{Kind: "list", Prefix: S(p), Names: base, Start: st}, "enum-list")
+			// the same listing from the second iteration of the sequence, from a view of a view
+			add(input{Kind: "list", Prefix: S(p), Names: base, Start: st, Pass: 1}, "enum-list")
+			for _, sp := range splits(p) {
+				add(input{Kind: "list", Prefix: S(p), Stack: sp, Names: base, Start: st}, "enum-list")
+			}
 		}
 	}
 
@@ -685,21 +971,30 @@ func main() {
 	// ---- random histories, scripted backend ----
 	for i := 0; i < nh; i++ {
 		p := prefixes[rnd.Intn(len(prefixes))]
+		stack := randStack(p)
+		if rnd.Intn(4) == 0 {
+			stack = stacks[rnd.Intn(len(stacks))]
+			p = string(joinStack(stack))
+		}
 		var h []filt.Op
 		for n := 1 + rnd.Intn(5); n > 0; n-- {
 			m := filt.Methods[rnd.Intn(len(filt.Methods))]
+			if rnd.Intn(4) == 0 {
+				m = "Repositories"
+			}
 			h = append(h, sampleOp(m, randName(), randName(), rnd.Intn(4)))
 		}
+		h, again := withAgain(h)
 		bc := backendCfg{Fail: rnd.Intn(4) == 0, List: listingFor(p)}
 		if rnd.Intn(3) == 0 {
 			bc.ListErr = seqErr
 		}
-		add(input{Kind: "hist", Prefix: S(p), Scope: randScope(), Hist: h, Backend: bc}, "random")
+		add(input{Kind: "hist", Prefix: S(p), Stack: stack, Scope: randScope(), Hist: h, Again: again, Backend: bc}, "random")
 	}
 	// ---- random histories over a recording backend in front of ocimem, and the same
 	// histories differentially against a twin registry ----
 	for i := 0; i < ntwin; i++ {
-		p := []string{"foo", "a", "foo/bar"}[rnd.Intn(3)]
+		p := []string{"foo", "a", "foo/bar", "a/a", "a/foo/bar"}[rnd.Intn(5)]
 		content := []S{S(p), S(p + "/b"), S(p + "/b/c"), S(p + "/c"), S(p + "ey"), S(p + "ey/b"), "other", "b", "c", S(p + "/other"), S(p + "/" + p + "/b")}
 		mnames := []string{"b", "b/c", "c", "other", p + "/b", "", ".", "..", "../other", "../" + p + "ey", "b/..", "b/../c", "./b", "/b", "b/", "b//c", "B", "new", "../" + p + "/b"}
 		var h []filt.Op
@@ -736,11 +1031,15 @@ func main() {
 			}
 			h = h2
 		}
-		add(input{Kind: kind, Prefix: S(p), Scope: randScope(), Hist: h, Backend: backendCfg{Mem: content}}, "random-mem")
+		var again []int
+		if rnd.Intn(2) == 0 {
+			h, again = withAgain(h)
+		}
+		add(input{Kind: kind, Prefix: S(p), Stack: randStack(p), Scope: randScope(), Hist: h, Again: again, Backend: backendCfg{Mem: content}}, "random-mem")
 	}
 	// ---- listings yield by yield: random contents, errors anywhere, consumers that stop anywhere ----
 	for i := 0; i < nseq; i++ {
-		p := []string{"a", "foo", "foo/bar"}[rnd.Intn(3)]
+		p := []string{"a", "foo", "foo/bar", "a/b/c"}[rnd.Intn(4)]
 		pool := listingFor(p)
 		var evs []filt.Yield
 		for n := rnd.Intn(9); n > 0; n-- {
@@ -753,10 +1052,14 @@ func main() {
 			}
 			evs = append(evs, y)
 		}
-		in := input{Kind: "seq", Prefix: S(p), Scope: randScope(), Events: evs, Start: S([]string{"", "", "one", "b", "../x", "two/"}[rnd.Intn(6)])}
+		in := input{Kind: "seq", Prefix: S(p), Stack: randStack(p), Scope: randScope(), Events: evs, Start: S([]string{"", "", "one", "b", "../x", "two/"}[rnd.Intn(6)])}
 		if rnd.Intn(3) > 0 {
 			k := rnd.Intn(len(evs) + 2)
 			in.Stop = &k
+		}
+		// the observed iteration is the first, second or third over the sequence value
+		for n := []int{0, 0, 1, 1, 2}[rnd.Intn(5)]; n > 0; n-- {
+			in.PrevStops = append(in.PrevStops, rnd.Intn(len(evs)+2)-1)
 		}
 		add(in, "random-seq")
 	}
@@ -781,7 +1084,7 @@ func main() {
 		if rnd.Intn(5) == 0 {
 			st = S(p + "/" + string(st)) // a caller that passes the full name by mistake
 		}
-		add(input{Kind: "list", Prefix: S(p), Names: ns, Start: st}, "random-list")
+		add(input{Kind: "list", Prefix: S(p), Stack: randStack(p), Names: ns, Start: st, Pass: []int{0, 0, 1, 2}[rnd.Intn(4)]}, "random-list")
 	}
 	if err := out.Flush(); err != nil {
 		panic(err)
